@@ -57,6 +57,7 @@ def cases(tier, seed):
         out.append({'g': g, 'directed': False, 'ws': 1, 'schemes': ['bin'], 'big': True})
     for g in G.many_paths(200 if thorough else 131):
         out.append({'g': g, 'directed': g[-1] is True, 'ws': 1, 'schemes': ['bin', 'int']})
+    out.append({'kind': 'degenerate', 'g': ['named', 'path', 2], 'directed': False, 'ws': 0, 'schemes': []})
     return out
 
 
@@ -250,6 +251,10 @@ def check_weights(REC, bct, A, W, directed):
 
 
 def run(case, bct, REC):
+    if case.get('kind') == 'degenerate':
+        from .common import degenerate_sizes
+        REC.tag(PROP, 'exec')
+        return degenerate_sizes(REC, PROP, bct, [('distance_bin', ()), ('distance_wei', ()), ('distance_wei_floyd', ()), ('breadthdist', ()), ('reachdist', ())])
     A = G.build(case['g'])
     directed = case['directed']
     for sc in case['schemes']:
